@@ -53,6 +53,7 @@ def log(*a):
 def parse_harness_file(path):
     """Return the list of harness metadata dicts declared with //@ lines in a harness file."""
     out, cur = [], None
+    code = []
     for line in open(path, encoding="utf-8"):
         m = re.match(r"\s*//@\s*([a-z_]+):\s*(.*\S)\s*$", line)
         if m:
@@ -62,14 +63,13 @@ def parse_harness_file(path):
                 out.append(cur)
             elif cur is not None:
                 cur[k] = (cur[k] + "; " + v) if k in cur else v
-        elif cur is not None and re.match(r"\s*fn\s+(\w+)", line):
-            name = re.match(r"\s*fn\s+(\w+)", line).group(1)
-            if name == cur["id"]:
-                cur["_seen_fn"] = True
-                cur = None
+        else:
+            code.append(line)
+    code = "".join(code)
     for h in out:
-        if not h.get("_seen_fn"):
-            raise SystemExit(f"harness metadata {h['id']} in {path} has no matching fn")
+        # the harness function is either written out (`fn <id>`) or named in a macro invocation
+        if not re.search(r"\b" + re.escape(h["id"]) + r"\b", code):
+            raise SystemExit(f"harness metadata {h['id']} in {path} has no matching function")
     return out
 
 
@@ -157,14 +157,15 @@ def build_overlay(prop, tag=None):
         if src not in attached:
             attached.append(src)
     for group_name, g in plan.GROUPS.items():
-        for src, (pat, repl) in g.get("rewrites", {}).items():
+        for src, rules in g.get("rewrites", {}).items():
             target = os.path.join(ws, src)
-            st = os.stat(target)
+            st = orig_stat.setdefault(target, os.stat(target))
             text = open(target, encoding="utf-8").read()
-            new, n = re.subn(pat, repl, text)
-            if n == 0:
-                raise Inconclusive(f"overlay: rewrite pattern for {src} no longer matches")
-            open(target, "w", encoding="utf-8").write(new)
+            for pat, repl, at_least in rules:
+                text, n = re.subn(pat, repl, text)
+                if n < at_least:
+                    raise Inconclusive(f"overlay: rewrite `{pat}` matched {n} < {at_least} times in {src} (source drift)")
+            open(target, "w", encoding="utf-8").write(text)
             os.utime(target, (st.st_atime, max(st.st_mtime, plan_mtime)))
     return ws, gen_dir, gen_report, attached
 
@@ -252,6 +253,24 @@ def classify(h, res, log_text):
         "covers_total": len(covers),
         "duration_ms": res.get("duration_ms"),
     }
+    if expect == "trap":
+        # the one defined trap: the only failed checks are division/remainder-by-zero checks and
+        # the code after the call is never reached
+        trap = [c for c in real_fail if re.search(r"divide by zero|remainder with a divisor of zero|division by zero", c.get("description", ""))]
+        other = [c for c in real_fail if c not in trap]
+        if unwind_fail or unsupported or undet:
+            info["verdict"] = "inconclusive"
+            info["reason"] = "trap harness: unwinding/unsupported/undetermined checks present"
+        elif trap and not other:
+            info["verdict"] = "ok"
+        elif other:
+            info["verdict"] = "fail"
+            info["failed_checks"] = [{"description": c.get("description"), "function": c.get("function"),
+                                      "category": c.get("category"), "location": c.get("location")} for c in other][:20]
+        else:
+            info["verdict"] = "inconclusive"
+            info["reason"] = "trap harness: no division-by-zero check failed and nothing else failed"
+        return info
     if expect == "reach":
         # vacuity twin: its final assert(false) must come back violated
         if any("vacuity witness" in c.get("description", "") for c in real_fail):
